@@ -90,11 +90,16 @@ def e2_check():
 
 
 # ------------------------------------------------------------------------------------------
-def gen_case(rng, hist):
+def gen_case(rng, hist, force_op=None):
     while True:
         c = c02.gen_case(rng, lambda *a, **k: None)
         cls = CLS[c["grid"]["cls"]]
-        op = rng.choice(OPS_BY_RANK[c["rank"]])
+        if force_op is not None:
+            if force_op not in OPS_BY_RANK[c["rank"]]:
+                continue
+            op = force_op
+        else:
+            op = rng.choice(OPS_BY_RANK[c["rank"]])
         if op not in c01.OPS[cls]:
             continue
         if op not in ("divergence", "tensor_divergence") and any(s["normal"] for s in c["sides"].values()):
@@ -287,6 +292,9 @@ def run(ctx):
 
     n = ctx.budget(180, 2500)
     cases = [gen_case(rng, ctx.hist) for _ in range(n)]
+    # the Laplacian is the only operator with a fourth route (the sparse matrix of the Poisson solvers):
+    # a stratum of its own so that every grid family meets that route on every run
+    cases += [gen_case(rng, ctx.hist, force_op="laplace") for _ in range(ctx.budget(60, 600))]
     batch = LeanBatch(ctx.workdir)
     reqs = [batch.add("c03.apply", model_request(c)) for c in cases]
     # schedule model sanity (executes the definitions the theorem is about)
